@@ -924,10 +924,12 @@ mod n {
     // ---- C13: slab test of the axis aligned box ---------------------------------------------------------------
     #[test]
     fn n_c13_aabb_slab() {
-        drive("C13.aabb.slab", "AABB::intersects vs the exact slab test: box [1,3]x[0,2]x[-1,1]; origins on the integer grid -1..4 (z -2..2), directions with components in {-1,0,1} (non-zero), all dyadic: the arithmetic is exact", |c| {
+        drive("C13.aabb.slab", "AABB::intersects vs the exact slab test: box [1,3]x[0,2]x[-1,1]; origins on the integer grid -1..4 (z -2..2), directions with components in {-1,-0.0,+0.0,1} (non-zero), all dyadic: the arithmetic is exact", |c| {
             let b = AABB::new(point![1.0, 0.0, -1.0], point![3.0, 2.0, 1.0]);
             let o = [c.pick(6) as f32 - 1.0, c.pick(6) as f32 - 1.0, c.pick(5) as f32 - 2.0];
-            let d = [c.pick(3) as f32 - 1.0, c.pick(3) as f32 - 1.0, c.pick(3) as f32 - 1.0];
+            // a zero component with either sign: -0.0 is what negating an axis-parallel direction gives
+            const COMPONENTS: [f32; 4] = [-1.0, -0.0, 0.0, 1.0];
+            let d = [COMPONENTS[c.pick(4)], COMPONENTS[c.pick(4)], COMPONENTS[c.pick(4)]];
             if d == [0.0, 0.0, 0.0] {
                 return;
             }
